@@ -73,9 +73,12 @@ impl Property for C13 {
     }
     fn setup(&mut self) {
         // brk requests far beyond memory: a real allocation attempt must fail fast instead of being overcommitted
-        unsafe {
-            let lim = libc::rlimit { rlim_cur: 16 << 30, rlim_max: 16 << 30 };
-            libc::setrlimit(libc::RLIMIT_AS, &lim);
+        // (not inside the libFuzzer target: AddressSanitizer reserves terabytes of address space for its shadow)
+        if std::env::var("AXVERIF_FUZZ_PROP").is_err() {
+            unsafe {
+                let lim = libc::rlimit { rlim_cur: 16 << 30, rlim_max: 16 << 30 };
+                libc::setrlimit(libc::RLIMIT_AS, &lim);
+            }
         }
     }
     fn decode(&mut self, tape: &TapeVal) -> Case {
